@@ -37,6 +37,8 @@ def features (s : SchemaSet) : List String :=
        (if w.ops.any (fun o => o.input.bodyParts.isNone) then ["implicitbody"] else [])
    | none => []) ++ (if hasExt then ["ext"] else []) ++
   (if s.files.any (fun f => f.prefixes.any (fun p => p.2.isEmpty)) then ["defaultns"] else []) ++
+  (if s.files.any (·.xsdDefault) then ["xsddefault"] else []) ++
+  (if s.files.any (fun f => (s.files.filter (fun g => g.tns == f.tns)).length > 1) then ["splitnamespace"] else []) ++
   (if s.files.any (fun f => f.imports.any (fun j => !f.prefixes.any (fun p => p.1 == j))) then ["silentimport"] else []) ++
   (if selfImport then ["selfimport"] else []) ++ (if cyc then ["cycle"] else []) ++
   (if (Ref.reachable s).length < s.files.length then ["unreachable"] else [])
